@@ -5,6 +5,7 @@ property's quick check against a scratch copy carrying the change, and file it u
 import json, os, shutil, subprocess, sys, tempfile, time
 
 prop, sdir, sid = sys.argv[1:4]
+sdir = os.path.abspath(sdir)
 patch = os.path.join(sdir, 'patch.diff')
 demo = os.path.join(sdir, 'demo.py')
 notes = os.path.join(sdir, 'notes.md')
